@@ -25,7 +25,7 @@ def one(name):
             return name, {'property': pid, 'outcome': 'patch-does-not-apply', 'detail': out[:200]}
         res = {}
         pids = [pid] + [p for p in sys.argv[1:] if p.startswith('+')]
-        rc, out = sh('/venv/bin/python /verif/check.py %s --root %s --no-evidence' % (pid, wt), cwd='/verif')
+        rc, out = sh('/venv/bin/python %s/check.py %s --root %s --no-evidence' % (os.environ.get('VERIF_HOME', '/verif'), pid, wt), cwd=os.environ.get('VERIF_HOME', '/verif'))
         viol = [l for l in out.splitlines() if l.startswith('  violated:')]
         err = [l for l in out.splitlines() if l.startswith('ANALYSIS-ERROR')]
         return name, {'property': pid, 'exit': rc,
